@@ -1,7 +1,7 @@
 import Solvor.Cp.Sem
 import Solvor.Cp.Dpll
 /-! Cp.Encode: mirror of `SATEncoder` (solvor/cp_encoder.py, with the proposed C06 repairs:
-exactly-one for auxiliary variables, MTZ loop over the order variable's domain, successor
+exactly-one for auxiliary variables, `sum_le([])` with a negative target, MTZ loop over the order variable's domain, successor
 range clauses, cumulative without the literal cut, general linear `ne_expr`), including the
 boolean numbering, so that the produced clause list can be compared with the captured one as a
 multiset of sorted clauses.  No Mathlib. -/
@@ -155,7 +155,7 @@ def encSumLeChain (X Y : EVar) : List EVar → Int → Nat → Cnf × Nat
 
 def encSumLe (Vs : List EVar) (t : Int) (next : Nat) : Cnf × Nat :=
   match Vs with
-  | [] => ([], next)
+  | [] => (if t < 0 then [[]] else [], next)
   | [X] => (forbid1 X (fun v => decide (v > t)), next)
   | X :: Y :: rest => encSumLeChain X Y rest t next
 
